@@ -5,11 +5,13 @@ line-protocol driver for C19
   guard <def|helper|mpicomm|cc|seq> <[colour per rank]> : <section>;<section>;…
       section = 2 letters per rank (arm ∈ n m a, act ∈ t d f r x q); answer = per rank one letter per section;
       the end must be matched in every communicator (`endsMatchedB`), otherwise bad-op
-  fut <mpi|seq> <op> <void|int|vec|ref|bool> <raw|erased|assigned|voidcast|movedfrom|null> red=<sum|min|max> root=<r>
-      vals=<v0/v1/…> : <step>;<step>;…
-      step = 1 letter per rank (v y w g c s -); answer = per rank the comma separated observations
+  fut <mpi|seq> <op> <void|int|vec|ref|bool> <raw|erased|assigned|voidcast|movedfrom|null|reused|reusedw|reusedd|erasedreused>
+      red=<sum|min|max> root=<r> vals=<v0/v1/…> : <step>;<step>;…
+      step = 1 letter per rank (v y w g c s - and d = get_send_data()); answer = per rank the comma separated observations
       (`*` for ready/polling on an invalid future: not part of the property, not compared)
       wrap: raw = the future itself (move constructed), assigned = move-assigned into a default-constructed future,
+      reused / reusedw / reusedd = move-assigned into a variable that served a previous operation (result taken / only
+      waited for / send object and result taken), erasedreused = the same for a Dune::Future<R> variable,
       erased = Dune::Future<R> holding it, voidcast = Dune::Future<void> holding it (payload discarded),
       movedfrom = the Dune::Future<R> it was moved out of again (null), null = default-constructed Dune::Future<R>
 -/
@@ -81,13 +83,14 @@ def handleGuard (ctor : String) (groups : String) (body : String) : String :=
 
 /-! ### futures -/
 
-def parseFOp : Char → Option (Option FOp)
-  | 'v' => some (some .valid)
-  | 'y' => some (some .ready)
-  | 'w' => some (some .wait)
-  | 'g' => some (some .get)
-  | 'c' => some (some .complete)
-  | 's' => some (some .spin)
+def parseFOp : Char → Option (Option FOp2)
+  | 'v' => some (some (.call .valid))
+  | 'y' => some (some (.call .ready))
+  | 'w' => some (some (.call .wait))
+  | 'g' => some (some (.call .get))
+  | 'c' => some (some (.call .complete))
+  | 's' => some (some (.call .spin))
+  | 'd' => some (some .sendData)
   | '-' => some none
   | _ => none
 
@@ -115,6 +118,7 @@ def showFObs (dontcare : Bool) : FObs → String
 /-- the future a rank holds -/
 inductive AnyFut where
   | mpiT (f : MpiFut)
+  | mpi2 (f : MpiFut2)
   | mpiVoid (f : MpiVoid)
   | pseudoT (f : PseudoFut)
   | pseudoVoid (f : PseudoVoid)
@@ -122,24 +126,81 @@ inductive AnyFut where
 
 def AnyFut.step : AnyFut → FOp → FObs × AnyFut
   | .mpiT f, o => let r := f.step o; (r.1, .mpiT r.2)
+  | .mpi2 f, o => let r := f.base.step o; (r.1, .mpi2 { f with base := r.2 })
   | .mpiVoid f, o => let r := f.step o; (r.1, .mpiVoid r.2)
   | .pseudoT f, o => let r := f.step o; (r.1, .pseudoT r.2)
   | .pseudoVoid f, o => let r := f.step o; (r.1, .pseudoVoid r.2)
   | .idle, _ => (.env, .idle)
 
-/-- the object the calls are made on: the future itself (raw, assigned: the move constructor / move assignment hand
-over buffer and request unchanged), a `Dune::Future` holding it (`some`), a `Dune::Future<void>` holding it, or a null
-`Dune::Future` -/
+/-- `get_send_data()`: exists on the two-buffer future only; the inner `none` = undefined behaviour -/
+def AnyFut.sendData : AnyFut → Option (Option (FObs × AnyFut))
+  | .mpi2 f => some ((MpiFut2.sendData f).map fun r => (r.1, .mpi2 r.2))
+  | _ => none
+
+/-- `tgt = std::move(src)` on two objects of the same class (`none`: different classes, not a case) -/
+def AnyFut.moveAssign : AnyFut → AnyFut → Option AnyFut
+  | .mpiT t, .mpiT s => some (.mpiT (MpiFut.moveAssign t s).1)
+  | .mpi2 t, .mpi2 s => some (.mpi2 (MpiFut2.moveAssign t s).1)
+  | .mpiVoid t, .mpiVoid s => some (.mpiVoid (MpiVoid.moveAssign t s).1)
+  | .pseudoT t, .pseudoT s => some (.pseudoT (PseudoFut.moveAssign t s))
+  | .pseudoVoid t, .pseudoVoid s => some (.pseudoVoid (PseudoVoid.moveAssign t s))
+  | .idle, .idle => some .idle
+  | _, _ => none
+
+/-- `F local(std::move(fut))` -/
+def AnyFut.moveConstruct : AnyFut → AnyFut
+  | .mpiT s => .mpiT (MpiFut.moveConstruct s)
+  | .mpi2 s => .mpi2 (MpiFut2.moveConstruct s)
+  | .mpiVoid s => .mpiVoid (MpiVoid.moveConstruct s)
+  | f => f   -- PseudoFuture: implicit member-wise move constructor
+
+/-- the default-constructed object of the same class (target of `assigned`) -/
+def AnyFut.defaultOf : AnyFut → Option AnyFut
+  | .mpiT _ => some (.mpiT MpiFut.invalid)
+  | .mpiVoid _ => some (.mpiVoid MpiVoid.invalid)
+  | .pseudoT _ => some (.pseudoT PseudoFut.invalid)
+  | .pseudoVoid _ => some (.pseudoVoid PseudoVoid.invalid)
+  | .idle => some .idle
+  | .mpi2 _ => none   -- MPIFuture<R,S> has no usable default constructor
+
+/-- the object the calls are made on: the future itself or a `Dune::Future` holding it (`some`), a
+`Dune::Future<void>` holding it, or a null `Dune::Future` -/
 def wrapStep (wrap : String) : Option AnyFut → FOp → FObs × Option AnyFut :=
   match wrap with
   | "voidcast" => erasedStep (voidCastStep AnyFut.step)
   | _ => erasedStep AnyFut.step
 
-def wrapStart (wrap : String) (f : AnyFut) : Option AnyFut :=
+/-- how the previous operation on a re-used variable was consumed -/
+def servePrevious (mode : Char) (f : AnyFut) : Option AnyFut :=
+  match mode with
+  | 'w' => some (f.step .wait).2
+  | 'g' => some (f.step .get).2
+  | 'd' =>
+    match f.sendData with
+    | some (some r) => some (r.2.step .get).2
+    | _ => none
+  | _ => none
+
+/-- the state of the object the calls are made on, given the future `f` returned by the operation of the case and the
+future `prev` returned by the previous operation of a re-used variable.  raw: move constructed; assigned: move
+assigned into a default-constructed object; reused/reusedw/reusedd: move assigned into the variable that served
+`prev`; erased/voidcast: a `Dune::Future` holding it; erasedreused: a `Dune::Future` variable that served `prev` is
+assigned a `Dune::Future` holding it; movedfrom/null: a null `Dune::Future`. -/
+def wrapStart (wrap : String) (f prev : AnyFut) : Option (Option AnyFut) :=
   match wrap with
-  | "null" => none
-  | "movedfrom" => none
-  | _ => some f
+  | "null" => some none
+  | "movedfrom" => some none
+  | "raw" => some (some f.moveConstruct)
+  | "erased" => some (some f.moveConstruct)
+  | "voidcast" => some (some f.moveConstruct)
+  | "erasedreused" =>
+    let used : Option AnyFut := (erasedStep AnyFut.step (some prev.moveConstruct) .get).2
+    some (erasedAssign used (some f.moveConstruct)).1
+  | "assigned" => (f.defaultOf.bind fun t => t.moveAssign f).map some
+  | "reused" => ((servePrevious 'g' prev.moveConstruct).bind fun t => t.moveAssign f).map some
+  | "reusedw" => ((servePrevious 'w' prev.moveConstruct).bind fun t => t.moveAssign f).map some
+  | "reusedd" => ((servePrevious 'd' prev.moveConstruct).bind fun t => t.moveAssign f).map some
+  | _ => none
 
 def allowedType (comm op ty : String) : Bool :=
   match comm, op with
@@ -158,8 +219,13 @@ def allowedType (comm op ty : String) : Bool :=
   | "mpi", "p2p" => ty == "int" || ty == "vec" || ty == "bool"
   | _, _ => false
 
-/-- which wrappers exist for which future type: a future can be move-assigned only where the class has a usable
-default constructor (no second buffer, no reference payload); a default-constructed Dune::Future belongs to no
+/-- two-buffer operations of `Communication<MPI_Comm>`: the future is an `MPIFuture<R,S>` owning a send object -/
+def hasSendObject (comm op : String) : Bool :=
+  comm == "mpi" && (op == "igather" || op == "iscatter" || op == "iallgather" || op == "iallreduce")
+
+/-- which wrappers exist for which future type: a future can be move-assigned into a default-constructed object only
+where the class has a usable default constructor (no second buffer, no reference payload); a used variable can be
+assigned to in every class but `PseudoFuture<T&>` (reference member); a default-constructed Dune::Future belongs to no
 operation -/
 def allowedWrap (comm op ty wrap : String) : Bool :=
   match wrap with
@@ -171,7 +237,15 @@ def allowedWrap (comm op ty wrap : String) : Bool :=
   | "assigned" =>
     ty != "ref" &&
       (comm == "seq" || op == "none" || op == "ibarrier" || op == "ibroadcast" || op == "iallreduce1" || op == "p2p")
+  | "reused" => op != "none" && !(comm == "seq" && ty == "ref")
+  | "reusedw" => op != "none" && !(comm == "seq" && ty == "ref")
+  | "reusedd" => hasSendObject comm op
+  | "erasedreused" => op != "none"
   | _ => false
+
+/-- `get_send_data()` can be called where the calls are made on the `MPIFuture<R,S>` itself -/
+def allowsSendData (comm op wrap : String) : Bool :=
+  hasSendObject comm op && (wrap == "raw" || wrap == "reused" || wrap == "reusedw" || wrap == "reusedd")
 
 def allowed (comm op ty wrap : String) : Bool := allowedType comm op ty && allowedWrap comm op ty wrap
 
@@ -195,11 +269,11 @@ def startFut (comm op ty : String) (red : Red) (root : Nat) (vals : List (List I
     | "ibarrier" => (.mpiVoid MpiVoid.start, false)
     | "ibroadcast" => (.mpiT (MpiFut.start mine (vals.getD root [])), false)
     | "igather" =>
-      if i == root then (.mpiT (MpiFut.start (sent p) (firsts vals)), false)
-      else (.mpiT (MpiFut.start [] []), true)
-    | "iscatter" => (.mpiT (MpiFut.start (sent 1) [mine.headD 0]), false)
-    | "iallgather" => (.mpiT (MpiFut.start (sent p) (firsts vals)), false)
-    | "iallreduce" => (.mpiT (MpiFut.start (sent mine.length) (reduceAll red vals)), false)
+      if i == root then (.mpi2 (MpiFut2.start (sent p) (firsts vals) [mine.headD 0]), false)
+      else (.mpi2 (MpiFut2.start [] [] [mine.headD 0]), true)
+    | "iscatter" => (.mpi2 (MpiFut2.start (sent 1) [mine.headD 0] (if i == root then firsts vals else [])), false)
+    | "iallgather" => (.mpi2 (MpiFut2.start (sent p) (firsts vals) [mine.headD 0]), false)
+    | "iallreduce" => (.mpi2 (MpiFut2.start (sent mine.length) (reduceAll red vals) mine), false)
     | "iallreduce1" => (.mpiT (MpiFut.start mine (reduceAll red vals)), false)
     | _ =>  -- p2p: root sends to root+1
       let src := vals.getD root []
@@ -208,16 +282,26 @@ def startFut (comm op ty : String) (red : Red) (root : Nat) (vals : List (List I
       else if i == (root + 1) % p then (.mpiT (MpiFut.start (sent src.length) src), false)
       else (.idle, false)
 
-def runRank (wrap : String) (f : Option AnyFut) (dontcare : Bool) (ops : List (Option FOp)) : List String :=
+def runRank (wrap : String) (f : Option AnyFut) (dontcare : Bool) (ops : List (Option FOp2)) : List String :=
   match ops with
   | [] => []
   | none :: os => "-" :: runRank wrap f dontcare os
-  | some o :: os =>
+  | some (.call o) :: os =>
     let r := wrapStep wrap f o
     -- ready()/polling on an invalid future is outside the property: not compared (`*`)
     let invalid := (wrapStep wrap f .valid).1 == FObs.bool false
     let shown := if invalid && (o == FOp.ready || o == FOp.spin) then "*" else showFObs dontcare r.1
     shown :: runRank wrap r.2 dontcare os
+  | some .sendData :: os =>
+    -- only on the two-buffer future itself (`allowsSendData`); the send object is always specified
+    match f.bind AnyFut.sendData with
+    | some (some r) => showFObs false r.1 :: runRank wrap (some r.2) dontcare os
+    | some none => ["UB"]
+    | none => ["no-send-object"]
+
+/-- the contributions to the previous operation a re-used variable served: every entry differs, and so does every
+reduction (sum/min/max shift by a constant; bool is flipped) -/
+def prevOf (ty : String) (v : Int) : Int := if ty == "bool" then 1 - v else v + 1000003
 
 def handleFut (hdr : List String) (body : String) : String :=
   match hdr with
@@ -241,13 +325,22 @@ def handleFut (hdr : List String) (body : String) : String :=
       match stepStrs.mapM (fun cs => cs.mapM parseFOp) with
       | none => "bad-op"
       | some steps =>
-        " ".intercalate ((List.range p).map fun i =>
+        -- get_send_data(): only where there is a send object, at most once per rank (a second call is undefined)
+        let sendCalls (i : Nat) : Nat := (steps.filter fun st => st.getD i none == some FOp2.sendData).length
+        if (List.range p).any (fun i => sendCalls i > 1 || (sendCalls i == 1 && !allowsSendData comm op wrap)) then "bad-op" else
+        let prevVals := vals.map fun v => v.map (prevOf ty)
+        let ranks := (List.range p).map fun i =>
           let (f, dc) := startFut comm op ty red root vals i
+          let (prev, _) := startFut comm op ty red root prevVals i
           let mineOps := steps.map fun st => (st.getD i none)
-          let body := match f with
-            | .idle => "idle"
-            | _ => ",".intercalate (runRank wrap (wrapStart wrap f) dc mineOps)
-          "r" ++ toString i ++ "{" ++ body ++ "}")
+          match f with
+          | .idle => some ("r" ++ toString i ++ "{idle}")
+          | _ =>
+            (wrapStart wrap f prev).map fun obj =>
+              "r" ++ toString i ++ "{" ++ ",".intercalate (runRank wrap obj dc mineOps) ++ "}"
+        match ranks.mapM id with
+        | some rs => " ".intercalate rs
+        | none => "bad-op"
     | _, _, _ => "bad-op"
   | _ => "bad-op"
 
